@@ -324,11 +324,13 @@ TRUSTED_BASE = [
     "hand-written glue: OCaml driver (token parser/printers), Rust harness (dump code, hooks under "
     "--cfg rssched_verif), Python generator/comparator",
     "model is hand-written Gallina (Network/load, Tour, Transition, Flow network, Schedule with all modifications, Swaps "
-    "with the neighbourhood enumeration, the pipeline composition, schedule_to_json); tie to /repo is the correspondence "
-    "check run on every check: operation histories, neighbourhood walks, whole solve runs (every stage snapshot, every "
-    "accepted local-search step, the returned JSON) replayed on the model and compared line by line",
+    "with the neighbourhood enumeration and its provider rotation, the transition optimisation with the cycle TSP, the "
+    "pipeline composition, schedule_to_json); tie to /repo is the correspondence check run on every check: operation "
+    "histories, neighbourhood walks, rotation-cycle sequences and optimiser runs, whole solve runs (every stage snapshot, "
+    "every accepted step of both local searches, the returned JSON) replayed on the model and compared line by line; every "
+    "check compares all models in the cone of its theorems (gen/cone.py)",
     "oracles, constrained per run but not modelled: rs_graph network_simplex (flow certified by checked potentials), "
-    "rayon min_by (pick contract checked on recorded steps), transition optimiser (TInv of its result checked), "
+    "rayon min_by of the two parallel minimisers (pick contract checked on every recorded step), "
     "HashMap iteration orders (read from the same process' observations), f32 slot distribution (read from the hook)",
     "not modelled: serde parsing and ISO time formatting (times enter as seconds through the Python encoder), machine "
     "integer widths (Z; debug builds run with overflow checks), threads, sockets, OS",
